@@ -32,7 +32,7 @@ for p in props:
                        'replay_cmd_template': './check %s --replay {path}' % i, 'engine': eng,
                        'level_claimed': {'category': cat, 'text': 'bounded symbolic verification: every obligation is an SMT verdict (unsat = holds for all values within the stated bounds); ' + tech, 'design_ref': 'DESIGN.md section 3 (%s)' % i},
                        'level_note': note + '; trusted: z3, the Go toolchain front ends (gnark frontend / go/ssa), the encoder (validated against the real build every run), stubs listed in the evidence file',
-                       'technique': (R2S if eng == 'R2S' else GOS if eng == 'GOSYM' else tech)})
+                       'technique': (R2S if eng == 'R2S' else GOS if eng == 'GOSYM' else 'SMT (z3, EUF) equivalence of parsed Lean definitions (engine/leanm); concrete text diff as replay') + ' -- ' + tech})
     else:
         na.append({'property_id': i, 'reason': NA.get(i, 'check not built yet (work in progress in this session)')})
 m = {'version': 1,
@@ -40,7 +40,8 @@ m = {'version': 1,
      'hooks': {'guard': 'verif', 'enable': 'no source hooks: harnesses enter by go/packages overlay, go test -overlay, or the verif-owned module with replace => /repo',
                'baseline_off_cmd': 'python3 /verif/tools/baseline.py /repo', 'source_commits': [], 'add_only': True},
      'engines': [{'name': 'R2S', 'path': 'engine/r2s', 'serves_properties': ['C01', 'C02', 'C03', 'C04', 'C05', 'C06'], 'kind_free_text': 'gnark R1CS -> typed terms -> SMT'},
-                 {'name': 'GOSYM', 'path': 'engine/gosym', 'serves_properties': [c['property_id'] for c in checks if c['engine'] == 'GOSYM'], 'kind_free_text': 'go/ssa symbolic executor -> SMT'}],
+                 {'name': 'GOSYM', 'path': 'engine/gosym', 'serves_properties': [c['property_id'] for c in checks if c['engine'] == 'GOSYM'], 'kind_free_text': 'go/ssa symbolic executor -> SMT (incl. GOSYM-C event/timestamp models)'},
+                 {'name': 'LEANM', 'path': 'engine/leanm', 'serves_properties': ['C17'], 'kind_free_text': 'Lean DSL parser -> SMT'}],
      'checks': checks, 'not_applicable': na,
      'notes': 'fix: commits in /repo for the genuine defects found (see known_findings.json). Exit codes: 0 held, 1 VIOLATION (replayed natively), 2 INCONCLUSIVE.'}
 json.dump(m, open(V + '/MANIFEST.json', 'w'), indent=1)
